@@ -193,8 +193,8 @@ def run(ctx):
             have_model = False
             tie = {'what': 'the Coq model of C20 no longer builds', 'coq_error': str(ex)[-1500:]}
     found = None
-    qruns = req_collect(ctx, 36 if q else 400, have_model)
-    rruns = [] if isinstance(qruns, tuple) else resp_collect(ctx, 30 if q else 300, have_model)
+    qruns = req_collect(ctx, 36 if q else 600, have_model)
+    rruns = [] if isinstance(qruns, tuple) else resp_collect(ctx, 30 if q else 480, have_model)
     for x in (qruns, rruns):
         if isinstance(x, tuple) and found is None: found = x[1]
     ctx.log('real-block sweeps: %s' % ('impl != spec' if found else 'impl = python copy of the spec'))
@@ -212,7 +212,7 @@ def run(ctx):
     size0_finding(ctx)
     broken = (not r['ok']) or missing or tie is not None
     if found is None and (broken or not q):
-        res = structured_search(ctx, 400 if q else 3000)
+        res = structured_search(ctx, 400 if q else 5000)
         if res: found = res[1]
     if found is not None:
         ctx.violation(minimise(found))
